@@ -17,7 +17,7 @@ import (
 func init() {
 	register(&propInfo{
 		id: "C02", fn: checkC02, multiConfig: true,
-		explanation: "Decided on the receive slice (recv, its lookup callbacks, registry.get, every registered decode method with its nested decoders, and the buffer read primitives): (r1) every construct that can panic on data — index and slice expressions, make with a non-constant size, unchecked type assertions, integer division, explicit panic — is enumerated from the syntax trees and must be discharged by one of a closed list of rules: index whose type range fits the array (factories[uint8]), slice/index dominated by the has(n)/consume ok guard on the same values, [:0] and full-array slices, comma-ok assertions, the sync.Pool assertion where New and every Put supply *[]byte, make sizes bounded by r2 or by a u16 count guarded by has(); in the thorough tier the Go compiler's own prove pass is cross-referenced (bounds checks it could not eliminate inside the slice must be sites the checker discharged by a guard rule; compile only, nothing runs); (r2) every allocation or read length in recv is fixedSize, remaining or remaining−fixedSize, all dominated by the connection-ending returns on size < headerLength and size > 4 MiB || size > msize (and fixedSize > remaining for the subtraction), and both callers pass the negotiated size; (r3) every return of recv after the header is a ConnError or is reached only after the body was consumed — by the complete vectored read or by the drain io.Copy(Discard, LimitReader(r, remaining)) under remaining > 0; (r4) the two size-check returns are reached before anything else reads from r; (r5) the server answers a protocol error with exactly one Rlerror and keeps serving, and ends the connection without sending on a ConnError (the counting rules of C06.r1/r4); (r6) markOverrun only sets, nothing clears the flag, and isOverrun is consulted after decode before the message is returned.",
+		explanation: "Decided on the receive slice (recv, its lookup callbacks, registry.get, every registered decode method with its nested decoders, and the buffer read primitives): (r1) every construct that can panic on data — index and slice expressions, make with a non-constant size, unchecked type assertions, integer division, explicit panic — is enumerated from the syntax trees and must be discharged by one of a closed list of rules: index whose type range fits the array (factories[uint8]), slice/index dominated by the has(n)/consume ok guard on the same values, [:0] and full-array slices, comma-ok assertions, the sync.Pool assertion where New and every Put supply *[]byte, make sizes bounded by r2 or by a u16 count guarded by has(); in the thorough tier the Go compiler's own prove pass is cross-referenced (bounds checks it could not eliminate inside the slice must be sites the checker discharged by a guard rule; compile only, nothing runs); (r2) every allocation or read length in recv is fixedSize, remaining or remaining−fixedSize, all dominated by the connection-ending returns on size < headerLength and size > 4 MiB || size > msize (and fixedSize > remaining for the subtraction), and both callers pass the negotiated size; (r3) every return of recv after the header is a ConnError or is reached only after the body was consumed — by the complete vectored read or by the drain io.Copy(Discard, LimitReader(r, remaining)) under remaining > 0; (r4) the two size-check returns are reached before anything else reads from r; (r5) the server answers a protocol error with exactly one Rlerror and keeps serving, and ends the connection without sending on a ConnError (the counting rules of C06.r1/r4); (r6) markOverrun only sets, nothing clears the flag, and isOverrun is consulted after decode before the message is returned. (r7) the vectored read below recv advances its buffers by exactly what each read delivered (the rules of C17.r2/r3): no slice expression can go out of range and no complete frame ends the connection because of where the transport cut it.",
 		assumptions: []string{"panics inside the standard library are not analysed", "memory held by decoded values (a 65535-element name list) is bounded by the u16 counts, independent of msize: reported, not covered by the msize clause"},
 		trusted:     []string{"Go compiler prove pass (thorough tier cross-reference only)"},
 	})
@@ -602,6 +602,13 @@ func checkC02(r *Run) {
 		c02CompilerCrossRef(r, sliceFuncs, discharged)
 	}
 	r.note("decoded values are bounded by the u16 list/string counts (a 65535-element list of empty names needs no bytes beyond its count): memory of decoded values is independent of msize and not covered by the msize clause")
+
+	// r7: a complete valid frame is never turned into an error or a panic by the way the
+	// transport cut it: the vectored read advances its buffers by exactly what arrived (the
+	// rules of C17.r2/r3) - an over-advanced payload slice panics or ends the connection
+	if r.borrowed == nil {
+		r.borrow(checkC17, map[string]string{"r2": "r7", "r3": "r7"})
+	}
 }
 
 func lineKey(r *Run, p token.Pos) string {
